@@ -50,6 +50,10 @@ structure Cfg where
   /-- model only: the variant of /repo with `fixes/C08-indus-pooled-dequeued-item-overtaken.diff` and
   `fixes/C08-indus-batch-size-one-waits-for-timeout.diff` applied (the judge does not look at it) -/
   repaired : Bool := true
+  /-- batch: batches are independent services that may be in process side by side (`BatchProcessor` never
+  reads `_processing`; DESIGN 13.6).  The one-batch limit is then not judged; a due flush timeout must start
+  its batch whatever else is in process, and every other clause stays. -/
+  overlap : Bool := false
 deriving Repr
 
 inductive Act
@@ -110,7 +114,7 @@ def overLimit (cfg : Cfg) (n : Nat) : Bool :=
   match cfg.comp with
   | .pooled | .reneging => decide (cfg.limit < n)
   | .conveyor => !cfg.unlimited && decide (cfg.limit < n)
-  | .batch => decide (1 < n)
+  | .batch => !cfg.overlap && decide (1 < n)
   | .gate => false
 
 /-! ## the book -/
@@ -267,6 +271,7 @@ def judgeBatch (cfg : Cfg) (j : Book) (o : Obs) : Except String Book :=
       | .wait => .ok { j' with waiting := j.waiting ++ [⟨id, o.t, none⟩] }
       | .start =>
         if j.waiting.length + 1 < cfg.limit then .error (S "started-partial-batch")
+        else if cfg.limit != 0 && decide (cfg.limit < j.waiting.length + 1) then .error (S "batch-exceeds-batch-size")
         else .ok (startBatch j' (j.waiting.map (·.id) ++ [id]))
       | _ => .error (S "malformed-observation")
   | .timeout =>
@@ -417,12 +422,12 @@ def strandCheck (cfg : Cfg) (j : Book) (next : Option Nat) : Option String :=
     | .conveyor => none
     | .gate => if !j.waiting.isEmpty && j.isOpen then some (sig c "strand/waiting-with-free-capacity") else none
     | .batch =>
-      if n == 0 && decide (cfg.limit ≤ j.waiting.length) then some (sig c "strand/waiting-with-free-capacity")
+      if (n == 0 || cfg.overlap) && decide (cfg.limit ≤ j.waiting.length) then some (sig c "strand/waiting-with-free-capacity")
       else match j.waiting, next with
         | w :: _, some t' =>
-          if n == 0 && cfg.timeout != 0 && decide (w.t + cfg.timeout < t') then some (sig c "strand/timeout-overdue") else none
+          if (n == 0 || cfg.overlap) && cfg.timeout != 0 && decide (w.t + cfg.timeout < t') then some (sig c "strand/timeout-overdue") else none
         | _ :: _, none =>
-          if n == 0 && cfg.timeout != 0 then some (sig c "strand/timeout-overdue") else none
+          if (n == 0 || cfg.overlap) && cfg.timeout != 0 then some (sig c "strand/timeout-overdue") else none
         | [], _ => none
 
 /-- the run is over: nothing may be left inside the component unless the configuration holds it forever
